@@ -619,6 +619,22 @@ class KVEngine:
                              % (fn.__name__, M.enc(fx), type(e).__name__))
                     continue
                 ctx.fail("query-mismatch", "outside-accepted", "%s(%s) returned %r for a node outside" % (fn.__name__, M.enc(fx), r))
+        # nested sequences: valid() answers for the whole tree of nodes (>= 9 sub-sequences, one bad node hidden inside)
+        inside = [x for x, _ in probes]
+        nested = [[inside[i % len(inside)], inside[(i + 1) % len(inside)]] for i in range(11)]
+        bad_node = (L[-1] + 3) if not isf else float(L[-1] + 3)
+        hidden = [list(pair) for pair in nested]
+        hidden[5] = [hidden[5][0], bad_node]
+        try:
+            ok_nested = kv.valid(nested)
+            bad_nested = kv.valid(hidden)
+            bad_tuple = kv.valid(tuple(tuple(pair) for pair in hidden))
+        except Exception as e:  # noqa
+            ctx.fail("query-mismatch", "nested-raises", "valid(nested sequence) raised %s" % type(e).__name__)
+            ok_nested, bad_nested, bad_tuple = True, False, False
+        if ok_nested is not True or bad_nested is not False or bad_tuple is not False:
+            ctx.fail("query-mismatch", "nested-valid", "valid() of 11 node pairs: all inside -> %r (expected True); one node outside hidden in the 6th pair -> %r / %r (expected False)"
+                     % (ok_nested, bad_nested, bad_tuple))
         # sequence form and indexing
         seq = [x for x, _ in probes[:4]]
         try:
